@@ -17,7 +17,7 @@ DECIDES = ('the input of split_curve / split_surface_u / split_surface_v / decom
            'kv[p+1 : -(p+1)] and uses the split functions in (u, v) order (DC1); [SKEL, bounded] the knot insertion skeleton used for splitting defines every output cell for every existing-knot multiplicity. the knot insertion helper that splitting is built on never hands a cell of its in-place-updated work array to the output without a deep copy (AL1). both span searches that the split functions accept (find_span_func) return exactly the half-open interval of the split parameter, also when it lies on a knot (OT1, order types); the working copy made by deepcopy shares no cache with the input (IV4). the fresh pieces receive the homogeneous control points of the refined copy - sliced from ctrlptsw when rational (or the weighted grid) and stored through set_ctrlpts / ctrlpts2d, never through the unweighted setter (RV1).')
 NOT_DECIDED = ('coincidence of the pieces with the original under the affine domain map, slice offsets ks + r of the control net inside split_curve / split_surface_* (decided by the syntactic split rules only): index-arithmetic facts of the split functions themselves.')
 TECHNIQUE = 'alias/mutation analysis with deep-mutation summaries, CFG dominance, axis tags'
-DECIDES += (' [ABSTRACT INTERPRETATION] DC2: decompose_curve / decompose_surface on recorder shapes with order-token knots (repeated interior knots included) and stub split functions split once at every distinct interior knot of a requested direction, in ascending order, never along another direction, never on the input itself, and return the Bezier pieces in (u-major) parameter order; DC9: the deep copy the splits start from shares nothing with the input; KI3 / OPS2: the insertion the splits rely on SP3: split_curve on recorder curves with exact rational knots and symbolic (homogeneous when rational) control points returns exactly the left and right halves of the net refined to full multiplicity, with the knot vectors [knots < u, u x (p+1)] / [u x (p+1), knots > u], leaves its input untouched and rejects the domain ends (DC1 only corroborates).')
+DECIDES += (' [ABSTRACT INTERPRETATION] DC2: decompose_curve / decompose_surface on recorder shapes with order-token knots (repeated interior knots included) and stub split functions split once at every distinct interior knot of a requested direction, in ascending order, never along another direction, never on the input itself, and return the Bezier pieces in (u-major) parameter order; DC9: the deep copy the splits start from shares nothing with the input; KI3 / OPS2: the insertion the splits rely on SP3: split_curve (and split_surface_u / _v on a non-square net with different degrees) on recorder shapes with exact rational knots and symbolic (homogeneous when rational) control points returns exactly the left and right halves of the net refined to full multiplicity, with the knot vectors [knots < u, u x (p+1)] / [u x (p+1), knots > u], leaves its input untouched and rejects the domain ends (DC1 only corroborates).')
 
 PURE_FUNCS = ['operations.split_curve', 'operations.split_surface_u', 'operations.split_surface_v', 'operations.decompose_curve',
               'operations.decompose_surface', 'operations.derivative_curve', 'operations.derivative_surface', 'operations.length_curve',
@@ -53,6 +53,7 @@ def check(m, run):
         split_rules(m, run, m.func(key), axis, pdim)
     from .. import skel_drivers as _sd
     _sd.sp3(m, run)          # split_curve on recorder curves: the pieces are the halves of the fully refined net, exactly
+    _sd.sp3s(m, run)         # split_surface_u / _v on recorder surfaces (non-square net, different degrees), plain and rational
     n0 = len(run.obs)
     _sd.dc2(m, run)
     dc_ok = all(o.ok for o in run.obs[n0:])
